@@ -35,19 +35,19 @@ func pause(class int) {
 }
 
 type Case struct {
-	File        *pbfgen.File
-	Procs       int
-	BlockDelay  []int // per block delay class, applied inside the filter callback on the block's first element
-	Chunk       int   // bytes per Read (0 = whole remaining input)
-	ReadDelay   int   // delay class applied every ReadEvery reads
-	ReadEvery   int
-	ScanDelay   int // delay class applied every ScanEvery objects in the consumer
-	ScanEvery   int
-	GoMaxProcs  int
-	Measure     bool // record block completion order with atomics (adds happens-before edges between decoders); false = callbacks only sleep
+	File       *pbfgen.File
+	Procs      int
+	BlockDelay []int // per block delay class, applied inside the filter callback on the block's first element
+	Chunk      int   // bytes per Read (0 = whole remaining input)
+	ReadDelay  int   // delay class applied every ReadEvery reads
+	ReadEvery  int
+	ScanDelay  int // delay class applied every ScanEvery objects in the consumer
+	ScanEvery  int
+	GoMaxProcs int
+	Measure    bool // record block completion order with atomics (adds happens-before edges between decoders); false = callbacks only sleep
 	// RejectBlock[b]: the filter callbacks reject every element of block b, so
 	// the block decodes to zero objects (an empty result travels the pipeline).
-	RejectBlock []bool
+	RejectBlock                        []bool
 	SkipNodes, SkipWays, SkipRelations bool
 	// Headerless: the stream starts at the first data block (a resumed scan).
 	Headerless bool
